@@ -5,6 +5,7 @@ import (
 	"runtime"
 	"sort"
 	"strings"
+	"time"
 
 	"github.com/gammazero/nexus/v3/router"
 	"github.com/gammazero/nexus/v3/wamp"
@@ -29,11 +30,11 @@ func init() {
 		},
 		Run: runC08,
 		Rule: "each case is one burst: 2-5 publishers x 2-5 subscribers (exact, prefix and wildcard subscriptions of 2 topics), 2-4 callers x 2-4 reactive callees (progressive results), with " +
-			"subscribers and callees unsubscribing/unregistering and re-subscribing/re-registering while traffic flows, all over non-local transports so that the send handlers run concurrently, " +
+			"subscribers and callees unsubscribing/unregistering and re-subscribing/re-registering (3/10/30 rounds, closed loop) while traffic flows and callers keep 20-60 calls in flight for 0/100/300 more calls (closed loop), all over non-local transports so that the send handlers run concurrently, " +
 			"GOMAXPROCS in {1,2,4,8}; each sender issues 20-60 numbered messages without waiting; offline checker over the receive logs: OR1 events per (publisher, topic, subscription) increasing, " +
 			"OR2 invocations per (caller, callee) increasing, OR3 progressive results per call increasing and before the final reply, OR4/OR5 SUBSCRIBED/REGISTERED brackets; " +
 			"non-trivial = burst in which >=2 senders were concurrently active towards the same receiver (measured from interleaved arrivals)",
-		Required: []string{"OR1", "OR2", "OR3", "OR4", "OR5"},
+		Required: []string{"OR1", "OR2", "OR3", "OR4", "OR5", "OR6", "OR7"},
 		Level:    "exploration",
 	})
 }
@@ -44,11 +45,19 @@ func runC08(c *Case) {
 	nPub, nSub := 2+r.IntN(4), 2+r.IntN(4)
 	nCaller, nCallee := 2+r.IntN(3), 2+r.IntN(3)
 	perSender := 20 + r.IntN(41)
+	withHistory := chance(r, 40)
+	churnRounds := pick(r, []int{3, 10, 30})
+	hammer := pick(r, []int{0, 100, 300})
 	var interleaved int
 	panicText := c.Bubble(func() {
 		old := runtime.GOMAXPROCS(procs)
 		defer runtime.GOMAXPROCS(old)
-		cfg := &router.Config{RealmConfigs: []*router.RealmConfig{{URI: "realm1", AnonymousAuth: true}}}
+		rcfg := &router.RealmConfig{URI: "realm1", AnonymousAuth: true}
+		if withHistory {
+			// topics with event history keep their subscription object across unsubscribes
+			rcfg.TopicEventHistoryConfigs = []*router.TopicEventHistoryConfig{{Topic: "t.one", MatchPolicy: "exact", Limit: 5}, {Topic: "t.", MatchPolicy: "prefix", Limit: 5}}
+		}
+		cfg := &router.Config{RealmConfigs: []*router.RealmConfig{rcfg}}
 		w, err := sim.NewWorld(cfg)
 		if err != nil {
 			c.Fail("HARNESS", "world", "cannot create world: %v", err)
@@ -148,6 +157,32 @@ func runC08(c *Case) {
 				}
 			})
 		}
+		// callers keep the pressure up while the callees churn: every final reply triggers the next call
+		// (closed loop), so calls reach the dealer throughout the register/unregister rounds
+		for ci, p := range callers {
+			p, ci := p, ci
+			sent := perSender
+			p.SetOnMsg(func(m wamp.Message) {
+				switch x := m.(type) {
+				case *wamp.Result:
+					if pr, _ := x.Details["progress"].(bool); pr {
+						return
+					}
+				case *wamp.Error:
+				default:
+					return
+				}
+				if sent >= perSender+hammer {
+					return
+				}
+				sent++
+				opts := wamp.Dict{}
+				if sent%2 == 0 {
+					opts["receive_progress"] = true
+				}
+				p.Send(&wamp.Call{Request: wamp.ID(sent), Options: opts, Procedure: wamp.URI(fmt.Sprintf("proc.%d", (sent/7+ci)%nCallee)), Arguments: wamp.List{"call", ci, sent}})
+			})
+		}
 		for i, cal := range callees {
 			cal := cal
 			orig := cal.OnMsg
@@ -158,7 +193,7 @@ func runC08(c *Case) {
 				switch x := m.(type) {
 				case *wamp.Registered:
 					regs++
-					if regs <= 3 && x.Request > 1 {
+					if regs <= churnRounds && x.Request > 1 {
 						cal.Send(&wamp.Unregister{Request: 2000 + x.Request, Registration: x.Registration})
 					}
 				case *wamp.Unregistered:
@@ -166,12 +201,44 @@ func runC08(c *Case) {
 				}
 			})
 			if chance(r, 70) {
-				// start the unregister/re-register churn: a repeated REGISTER is answered with REGISTERED (request > 1)
-				cal.Send(&wamp.Register{Request: 9, Options: wamp.Dict{}, Procedure: proc})
+				// start the unregister/re-register churn with the registration made before the burst
+				for _, o := range cal.Log() {
+					if rg, ok := o.Msg.(*wamp.Registered); ok && rg.Request == 1 {
+						cal.Send(&wamp.Unregister{Request: 2001, Registration: rg.Registration})
+					}
+				}
 			}
 		}
 		w.Wait()
 		w.Advance(1)
+		// ---- a caller that stops reading for 5 s while progressive results are produced for it: the dealer
+		// retries the blocked RESULT (for up to a minute), and the results that follow must wait behind it
+		slow := w.AddPuppet(sim.PuppetSpec{Kind: sim.Local, QSize: 1})
+		slow.Join("realm1", wamp.Dict{"roles": sim.AllFeatures()})
+		slow.Stall()
+		slow.Send(&wamp.Call{Request: 9001, Options: wamp.Dict{"receive_progress": true}, Procedure: "proc.0", Arguments: wamp.List{"call", 99, 9001}})
+		w.Wait()
+		w.Advance(5 * time.Second)
+		slow.Resume()
+		w.Advance(30 * time.Second)
+		var slowSeq []string
+		for _, o := range slow.Log() {
+			switch m := o.Msg.(type) {
+			case *wamp.Result:
+				if pr, _ := m.Details["progress"].(bool); pr && len(m.Arguments) >= 2 {
+					k, _ := canon.AsID(m.Arguments[1])
+					slowSeq = append(slowSeq, fmt.Sprint("progress", k))
+				} else {
+					slowSeq = append(slowSeq, "final")
+				}
+			case *wamp.Error:
+				slowSeq = append(slowSeq, "error:"+string(m.Error))
+			}
+		}
+		c.Hit("OR7")
+		if got := strings.Join(slowSeq, " "); got != "progress1 progress2 progress3 final" {
+			c.Fail("OR7", "progressive results to a blocked caller lost or reordered", "a caller with a 1-message queue stopped reading for 5 s (less than the dealer's retry period) while the callee yielded progress 1,2,3 and the final result; after resuming it received: [%s]", got)
+		}
 		// ---- offline checks
 		all := append(append(append(append([]*sim.Puppet{}, pubs...), subs...), callers...), callees...)
 		var arrival []string
@@ -198,9 +265,9 @@ func runC08(c *Case) {
 			return int(n)
 		}
 		for _, s := range subs {
-			last := map[string]int{}      // publisher|topic|subscription -> last n
-			active := map[wamp.ID]bool{}  // subscription ids between SUBSCRIBED and UNSUBSCRIBED
-			known := map[wamp.ID]bool{}   // ids ever announced by SUBSCRIBED
+			last := map[string]int{}              // publisher|topic|subscription -> last n
+			active := map[wamp.ID]bool{}          // subscription ids between SUBSCRIBED and UNSUBSCRIBED
+			known := map[wamp.ID]bool{}           // ids ever announced by SUBSCRIBED
 			pendingUnsub := map[wamp.ID]wamp.ID{} // unsubscribe request -> subscription (from what the puppet sent)
 			lastPubSeen := -1
 			for _, o := range s.Log() {
@@ -274,6 +341,9 @@ func runC08(c *Case) {
 				case *wamp.Registered:
 					regKnown[m.Registration] = true
 					delete(dead, m.Registration)
+					if m.Request > 1 {
+						c.Hit("OR6") // a re-registration while traffic flows
+					}
 				case *wamp.Unregistered:
 					if id, ok := unregOf[m.Request]; ok {
 						dead[id] = true
@@ -345,8 +415,8 @@ func runC08(c *Case) {
 	}
 	c.NT = interleaved > 0
 	c.Add("interleaved_arrivals", float64(interleaved))
-	c.Key = fmt.Sprintf("procs=%d pubs=%d subs=%d callers=%d callees=%d per=%d seed=%d", procs, nPub, nSub, nCaller, nCallee, perSender, c.Index)
-	c.Sample = map[string]any{"gomaxprocs": procs, "publishers": nPub, "subscribers": nSub, "callers": nCaller, "callees": nCallee, "messages_per_sender": perSender,
+	c.Key = fmt.Sprintf("procs=%d pubs=%d subs=%d callers=%d callees=%d per=%d churn=%d hammer=%d hist=%v seed=%d", procs, nPub, nSub, nCaller, nCallee, perSender, churnRounds, hammer, withHistory, c.Index)
+	c.Sample = map[string]any{"gomaxprocs": procs, "publishers": nPub, "subscribers": nSub, "callers": nCaller, "callees": nCallee, "messages_per_sender": perSender, "churn_rounds": churnRounds, "closed_loop_calls": hammer, "history_topics": withHistory,
 		"interleaved_arrivals": interleaved}
 }
 
